@@ -93,21 +93,21 @@ type sample struct {
 
 // Stats is what one test process reports to the driver.
 type Stats struct {
-	Property    string         `json:"property"`
-	Unit        string         `json:"unit"`
-	Seed        uint64         `json:"seed"`
-	Evaluations int            `json:"evaluations"`
-	Nontrivial  []string       `json:"nontrivial_hashes"`
-	Classes     map[string]int `json:"classes"`
-	Counts      map[string]int `json:"counts"`
-	Samples     []sample       `json:"samples"`
-	KnownHits   map[string]int `json:"known_hits"`
+	Property    string            `json:"property"`
+	Unit        string            `json:"unit"`
+	Seed        uint64            `json:"seed"`
+	Evaluations int               `json:"evaluations"`
+	Nontrivial  []string          `json:"nontrivial_hashes"`
+	Classes     map[string]int    `json:"classes"`
+	Counts      map[string]int    `json:"counts"`
+	Samples     []sample          `json:"samples"`
+	KnownHits   map[string]int    `json:"known_hits"`
 	KnownWhat   map[string]string `json:"known_what"`
-	Violation   string         `json:"violation,omitempty"`
-	Replay      string         `json:"replay,omitempty"`
-	Harness     string         `json:"harness,omitempty"`
-	Completed   bool           `json:"completed"`
-	WallS       float64        `json:"wall_s"`
+	Violation   string            `json:"violation,omitempty"`
+	Replay      string            `json:"replay,omitempty"`
+	Harness     string            `json:"harness,omitempty"`
+	Completed   bool              `json:"completed"`
+	WallS       float64           `json:"wall_s"`
 }
 
 type replayFile struct {
@@ -199,12 +199,33 @@ func RunProp[C any](t *testing.T, p Prop[C]) {
 	}
 	defer writeStats()
 
+	// Regression corpus: saved failing cases of defects that were repaired
+	// (and of seeded changes) are replayed before anything is generated.
+	if rv := regress(t, p, st, known); rv != nil {
+		failed = true
+		lastCase = rv.caseJSON
+		firstCase = rv.caseJSON
+		lastVerdict = rv.v
+		st.Completed = true
+		t.Errorf("property %s violated by regression case %s [%s]: %s", p.ID, rv.file, rv.v.Sig, rv.v.Violation)
+		return
+	}
+	if st.Harness != "" {
+		t.Fatalf("HARNESS-ERROR %s", st.Harness)
+	}
+
 	rapid.Check(t, func(rt *rapid.T) {
 		c := p.Gen(rt)
 		cb, err := json.Marshal(c)
 		if err != nil {
 			st.Harness = "case not serialisable: " + err.Error()
 			rt.Fatalf("HARNESS-ERROR %s", st.Harness)
+		}
+		// Left behind for the driver if the process dies in this case
+		// (a panic in a client goroutine cannot be recovered here).
+		if dir := os.Getenv("VERIF_STATS_DIR"); dir != "" {
+			cur, _ := json.Marshal(replayFile{Property: p.ID, Unit: p.Name, Case: cb})
+			_ = os.WriteFile(filepath.Join(dir, "current-case.json"), cur, 0o644)
 		}
 		v := p.Run(t, c)
 		mu.Lock()
@@ -259,6 +280,77 @@ func RunProp[C any](t *testing.T, p Prop[C]) {
 }
 
 type harnessPanic string
+
+type regressHit struct {
+	file     string
+	caseJSON []byte
+	v        Verdict
+}
+
+// regress replays this shard's share of the saved cases under
+// $VERIF_REGRESS_DIR/<unit>/ ($VERIF_REGRESS_N runs each: most of them are
+// schedule dependent). Cases that no longer decode are skipped and counted.
+func regress[C any](t *testing.T, p Prop[C], st *Stats, known map[string]knownFinding) *regressHit {
+	dir := os.Getenv("VERIF_REGRESS_DIR")
+	if dir == "" {
+		return nil
+	}
+	files, _ := filepath.Glob(filepath.Join(dir, p.Name, "*.json"))
+	sort.Strings(files)
+	n := 3
+	if s := os.Getenv("VERIF_REGRESS_N"); s != "" {
+		if k, err := strconv.Atoi(s); err == nil && k > 0 {
+			n = k
+		}
+	}
+	shard, _ := strconv.Atoi(os.Getenv("VERIF_SHARD"))
+	nshards, _ := strconv.Atoi(os.Getenv("VERIF_NSHARDS"))
+	if nshards <= 0 {
+		nshards = 1
+	}
+	for i, f := range files {
+		if i%nshards != shard%nshards {
+			continue
+		}
+		b, err := os.ReadFile(f)
+		if err != nil {
+			continue
+		}
+		var rf replayFile
+		if json.Unmarshal(b, &rf) != nil || rf.Property != p.ID || rf.Unit != p.Name {
+			st.Counts["regress_skipped"]++
+			continue
+		}
+		var c C
+		if json.Unmarshal(rf.Case, &c) != nil {
+			st.Counts["regress_skipped"]++
+			continue
+		}
+		if dir := os.Getenv("VERIF_STATS_DIR"); dir != "" {
+			cur, _ := json.Marshal(replayFile{Property: p.ID, Unit: p.Name, Case: rf.Case})
+			_ = os.WriteFile(filepath.Join(dir, "current-case.json"), cur, 0o644)
+		}
+		for k := 0; k < n; k++ {
+			v := p.Run(t, c)
+			if v.Harness != "" {
+				st.Harness = "regression case " + filepath.Base(f) + ": " + v.Harness
+				return nil
+			}
+			st.Evaluations++
+			st.Classes["regress"]++
+			st.Counts["regress_runs"]++
+			if v.Violation != "" {
+				if kf, ok := known[v.Sig]; ok && v.Sig != "" {
+					st.KnownHits[v.Sig]++
+					st.KnownWhat[v.Sig] = kf.What
+					continue
+				}
+				return &regressHit{file: filepath.Base(f), caseJSON: []byte(rf.Case), v: v}
+			}
+		}
+	}
+	return nil
+}
 
 func replay[C any](t *testing.T, p Prop[C], path string) {
 	b, err := os.ReadFile(path)
